@@ -40,7 +40,7 @@ type c03Case struct {
 func init() {
 	engine.Register(&engine.Check{
 		ID: "C03", Level: "fault_enumeration",
-		Rule: "corpus = universe U in XY/XYZ/XYM/XYZM + collections (mixed layouts, empty members, nesting) x {NDR,XDR} x {WKB default, WKB NaN mode, EWKB} x top-level SRID in {0,1,4326,2^31-1,2^31,2^32-1} + special-float sweep; bytes compared with an independent reference encoder, decode compared with the model (carve-outs computed); hex and SQL wrappers; Read over a fault-injecting reader on enc(g1)||enc(g2): all answer sequences with <=1 (quick) / <=2 (thorough) non-default answers from {all, 1 byte, all-but-one, data+EOF}, and ALL chunk compositions for encodings <= 22 bytes; Write over a fault-injecting writer: every Write call index x {fail, short write}. distinct_nontrivial = distinct (case) tuples with at least one coordinate",
+		Rule: "corpus = universe U in XY/XYZ/XYM/XYZM + collections (mixed layouts, empty members, nesting) + 14 large geometries whose coordinate arrays straddle 512/1024 floats and 4/8/64 KiB x {NDR,XDR} x {WKB default, WKB NaN mode, EWKB} x top-level SRID in {0,1,4326,2^31-1,2^31,2^32-1} + special-float sweep; bytes compared with an independent reference encoder, decode compared with the model (carve-outs computed); hex and SQL wrappers; Read over a fault-injecting reader on enc(g1)||enc(g2): all answer sequences with <=1 (quick) / <=2 (thorough) non-default answers from {all, 1 byte, all-but-one, data+EOF}, and ALL chunk compositions for encodings <= 22 bytes; Write over a fault-injecting writer: every Write call index x {fail, short write}. distinct_nontrivial = distinct (case) tuples with at least one coordinate",
 		Run:    c03Run,
 		Replay: func(c *engine.Ctx, kind string, raw json.RawMessage) { c03Exec(c, decodeCase[c03Case](raw), nil) },
 		Assumptions: []string{
@@ -477,6 +477,8 @@ func c03SQL(c *engine.Ctx, cs c03Case, fail func(what, desc string)) {
 
 func c03Run(c *engine.Ctx) {
 	corpus := codecCorpus(c.Thorough())
+	big := bigCorpus(true)
+	c.Note("big_geometries", len(big))
 	// unsupported layouts
 	extra := []*ref.G{ref.NewPoint(geom.Layout(5), true, ref.Counter()), ref.NewLine(ref.LineString, geom.Layout(7), 2, ref.Counter()),
 		ref.NewLine(ref.LineString, geom.NoLayout, 0, ref.Counter()), ref.NewCollection(geom.NoLayout, ref.NewPoint(geom.Layout(5), true, ref.Counter()))}
@@ -484,7 +486,7 @@ func c03Run(c *engine.Ctx) {
 	c.Note("corpus", len(corpus))
 	formats := []c03Case{{}, {NaN: true}, {Ext: true}}
 	// (1) bytes + decode + hex, all SRIDs
-	all := append(append([]*ref.G{}, corpus...), extra...)
+	all := append(append(append([]*ref.G{}, corpus...), extra...), big...)
 	c.Parallel(len(all), func(i int) {
 		for _, f := range formats {
 			for _, xdr := range []bool{false, true} {
@@ -567,8 +569,9 @@ func c03Run(c *engine.Ctx) {
 	defer func() { wkbcommon.MaxGeometryElements = savedLimits }()
 	follower := ref.NewPoint(geom.XYZ, true, ref.CounterFrom(70))
 	var capped bool
-	c.Parallel(len(corpus), func(i int) {
-		g := corpus[i]
+	streamCorpus := append(append([]*ref.G{}, corpus...), big...)
+	c.Parallel(len(streamCorpus), func(i int) {
+		g := streamCorpus[i]
 		for _, f := range formats {
 			if !f.Ext && !f.NaN && ref.HasEmptyPoint(g) {
 				continue
@@ -586,8 +589,8 @@ func c03Run(c *engine.Ctx) {
 		}
 	})
 	// (5) writer faults
-	c.Parallel(len(corpus), func(i int) {
-		g := corpus[i]
+	c.Parallel(len(streamCorpus), func(i int) {
+		g := streamCorpus[i]
 		for _, f := range formats {
 			if !f.Ext && !f.NaN && ref.HasEmptyPoint(g) {
 				continue
